@@ -238,8 +238,11 @@ func checkC10(c *Ctx) {
 			}
 			return ""
 		},
-		Cond:   p.condMentions("parseCIDR"),
-		Expand: func(*ssa.Function, ssa.CallInstruction) bool { return false },
+		Cond: p.condMentions("parseCIDR"),
+		Expand: func(callee *ssa.Function, site ssa.CallInstruction) bool {
+			pk := fnPkg(callee)
+			return pk != nil && strings.HasSuffix(pk.Pkg.Path(), "/internal/adminapi") && callee.Name() != "parseCIDR"
+		},
 	}
 	c.traceRule("filter-entries-accounted", "adminapi.NewIPFilter", nf, spF,
 		"every list entry visited is parsed and either appended to its list or makes construction fail",
@@ -269,39 +272,42 @@ func checkC10(c *Ctx) {
 			return ""
 		})
 	if nf != nil {
-		// structural: inside each entry loop every path reaches parseCIDR (no `continue` before it)
-		okLoops, nLoops := true, 0
-		instrsOf(nf, func(in ssa.Instruction) {
-			ci, ok := in.(ssa.CallInstruction)
-			if !ok || !strings.HasSuffix(CalleeName(ci), "adminapi.parseCIDR") {
-				return
-			}
-			nLoops++
-			hdr := loopHeader(in.Block())
-			if hdr == nil {
-				okLoops = false
-				return
-			}
-			// the loop body's entry block must be the block that parses (or dominate it with no other exit back to the header)
-			for _, b := range nf.Blocks {
-				if !hdr.Dominates(b) || b == hdr || !reaches(b, hdr, map[*ssa.BasicBlock]bool{}) {
-					continue
+		// structural: inside each entry loop every path reaches parseCIDR (no `continue` before it);
+		// the loops may live in NewIPFilter itself or in a helper it calls once per list
+		loopOK := func(fn *ssa.Function) (ok bool, n int) {
+			ok = true
+			instrsOf(fn, func(in ssa.Instruction) {
+				ci, isCall := in.(ssa.CallInstruction)
+				if !isCall || !strings.HasSuffix(CalleeName(ci), "adminapi.parseCIDR") {
+					return
 				}
-				if in.Block().Dominates(b) || b.Dominates(in.Block()) && len(b.Succs) == 1 {
-					continue
+				n++
+				hdr := loopHeader(in.Block())
+				if hdr == nil {
+					ok = false
+					return
 				}
-				if b.Dominates(in.Block()) {
-					// a branch before parsing that can go back to the header skips the entry
-					for _, s := range b.Succs {
-						if s == hdr || (!s.Dominates(in.Block()) && s != in.Block() && reaches(s, hdr, map[*ssa.BasicBlock]bool{}) && !reaches(s, in.Block(), map[*ssa.BasicBlock]bool{})) {
-							okLoops = false
+				for _, s := range hdr.Succs {
+					if hdr.Dominates(s) && reaches(s, hdr, map[*ssa.BasicBlock]bool{}) && s != in.Block() {
+						if reachesAvoiding(s, hdr, in.Block(), map[*ssa.BasicBlock]bool{}) {
+							ok = false
 						}
 					}
 				}
+			})
+			return
+		}
+		okLoops, nLoops := loopOK(nf)
+		for _, ci := range callsIn(nf) {
+			if h := StaticFn(ci); h != nil && p.IsHelios(h) && h.Name() != "parseCIDR" {
+				if okH, nH := loopOK(h); nH > 0 {
+					nLoops += nH
+					okLoops = okLoops && okH
+				}
 			}
-		})
+		}
 		c.Check(okLoops && nLoops >= 2, "filter-entries-accounted", "adminapi.NewIPFilter/no-skipped-entry", p.Pos(nf.Pos()),
-			"both entry loops parse every element", "a list entry can be skipped without being parsed: a list of only such entries yields an empty filter, which allows every address")
+			"both lists are parsed entry by entry", "a list entry can be skipped without being parsed: a list of only such entries yields an empty filter, which allows every address")
 	}
 
 	// 4, 6. middleware
